@@ -91,7 +91,7 @@ impl Property for C07 {
             Family::new("server-histories", ctx.tier.pick(16, 400), |_c, rng, emit| {
                 for _ in 0..12 {
                     let n = 1 + rng.below(7);
-                    let ops: Vec<_> = (0..n).map(|_| json!([rng.weighted(&[6, 1, 2, 2, 2]), rng.below(NFILES), rng.below(NVARIANTS)])).collect();
+                    let ops: Vec<_> = (0..n).map(|_| json!([rng.weighted(&[6, 1, 2, 2, 2]), rng.below(NFILES), rng.below(2 * NVARIANTS)])).collect();
                     if !emit(json!({"kind": "server-hist", "ops": ops})) {
                         return;
                     }
@@ -398,7 +398,12 @@ fn server_history(case: &Case, ops: &[serde_json::Value]) -> Verdict {
             }
             continue;
         }
-        let t = variant_text(f, v as usize % NVARIANTS);
+        let mut t = variant_text(f, v as usize % NVARIANTS);
+        // the upper half of the variants: the same bytes with the line breaks after `;` and `}` turned
+        // into blanks - every offset stays, every line and column moves
+        if (v as usize / NVARIANTS) % 2 == 1 {
+            t = super::c09::relayout(&t);
+        }
         if model[&name] != t && v % 8 != 0 {
             structural = true;
         }
